@@ -219,7 +219,7 @@ def clf_case(ctx, k):
             return
         ctx.count('histories:' + hist[-1])
         check_classifier(ctx, clf, rs, n_feat, n_classes, gaussian, dict(rep, history=hist), 'history')
-        if ctx.n_new() >= 3:
+        if ctx.n_new(with_input_only=True) >= 3:
             return
 
 
@@ -227,13 +227,13 @@ def run(ctx):
     n = 14 if ctx.tier == 'quick' else 200
     for k in range(n):
         clf_case(ctx, k)
-        if ctx.n_new() >= 3:
+        if ctx.n_new(with_input_only=True) >= 3:
             return
     for k in range(4 if ctx.tier == 'quick' else 60):
         rs = np.random.RandomState(np_seed(ctx.sub_rng('est', k)))
         ctx.case('estimator', nontrivial_key=('est', k), sample=dict(kind='estimator', k=k))
         check_estimator(ctx, rs, dict(kind='c20-est', k=k, seed=ctx.seed))
-        if ctx.n_new() >= 3:
+        if ctx.n_new(with_input_only=True) >= 3:
             return
 
 
